@@ -33,7 +33,9 @@ RULE = ("a case is one schema-expressible scenario + planning-problem set (JSON 
         "element); distinct = distinct canonical JSON of the spec. Per document: 8 mutants (swapped / dropped / duplicated / "
         "renamed children, exponent-form / nan / malformed numbers, dangling / duplicate / malformed ids and refs, bad enum / "
         "boolean / integer / time texts, unknown or missing attributes, benign reorderings inside xs:all) go through lxml and "
-        "the Lean validator. A second stream: single numbers x precision through float_to_str / decimal_to_str.")
+        "the Lean validator. A second stream: single numbers (all magnitudes 5e-324..1.8e308, rounding boundaries, repr "
+        "switch-over points 1e-4 / 1e16) x precision 0..12 through float_to_str / decimal_to_str. Quick: 260 documents, ~2000 "
+        "mutants, 4000 numbers.")
 ASSUMPTIONS = [
     "schema-expressible (the property's own restriction) is what harness/c03_gen.py documents: enum members whose value the XSD "
     "lists, initial states at time 0 with the required elements, interval goal states, a prediction for every dynamic/phantom "
@@ -588,8 +590,6 @@ def run_doc(ctx, spec, mutants=8, correspond=True):
         out = ctx.driver.ask("C03", "kids", {"items": [[b, p] for b, p, _ in items]})
         for (b, p, actual), model in zip(items, out):
             ctx.tag(f"builder/{b}")
-            if b in ("state", "scenarioTags"):     # set / dict driven order is compared as emitted (the model maps names only)
-                pass
             ctx.compare({"kind": "kids", "builder": b, "params": p}, actual, model, f"children of <{b}> vs CR.XmlW.{b}Kids")
     # ---- correspondence C: mutants, both validators
     r = ctx.rng
